@@ -10,23 +10,28 @@ Definition lv_table : table :=
 
 Record lv_case : Type := mklvcase {
   lc_idx : nat; lc_fn : fn; lc_edges : list edge; lc_nodes : list lnode;
-  lc_annos : list sanno; lc_fnrows : list fnrow }.
+  lc_annos : list sanno; lc_fnrows : list fnrow;
+  lc_lambdas : list label }.     (* labels of lambda-expression nodes (not part of the skeleton / of any trace) *)
 
 (* 0 ok | 1 model graph not contained in the implementation's | 2 reported sets are not the fixed point of the
    generated equations | 3 soundness inclusions (Python-side gen/kill) | 4 annotations | 5 DEFINED_FNS_IN
    | 6 only: variables a reaching local function reads and declares nonlocal are not live
-   | 7 only: the edge-sensitive (unguarded) inclusions fail: a for header kills its target on the exit edge (known finding) *)
+   | 7 only: the edge-sensitive (unguarded) inclusions fail: a for header kills its target on the exit edge (known finding)
+   | 8 only: free variables of lambda expressions that may be called later are not live (known finding) *)
 Definition lv_code (c : lv_case) : nat :=
-  let E := lc_edges c in
+  let E := lc_edges c in                          (* the implementation's graph, lambda nodes included *)
+  let Ec := contract E (lc_lambdas c) in          (* lambda nodes contracted: the graph traces live in *)
   let ns := lc_nodes c in
   let R := reach_bwd E in
-  if negb (incl_edges (cfg_fn (lc_fn c)) E) then 1
+  let Rc := reach_bwd Ec in
+  if negb (incl_edges (cfg_fn (lc_fn c)) Ec) then 1
   else if negb (lv_fix lv_table E ns R) then 2
-  else if negb (lv_sound E ns false R) then 3
-  else if negb (forallb (lv_anno_ok E ns) (lc_annos c)) then 4
-  else if negb (fn_sound E (reach_fwd E (f_args (lc_fn c))) (lc_fnrows c)) then 5
-  else if negb (lv_sound E ns true R) then 6
-  else if negb (lv_sound_e E ns true R) then 7
+  else if negb (lv_sound Ec ns false false Rc) then 3
+  else if negb (forallb (lv_anno_ok Ec ns) (lc_annos c)) then 4
+  else if negb (fn_sound Ec (reach_fwd Ec (f_args (lc_fn c))) (lc_fnrows c)) then 5
+  else if negb (lv_sound Ec ns true false Rc) then 6
+  else if negb (lv_sound_e Ec ns true false Rc) then 7
+  else if negb (lv_sound Ec ns true true Rc && lv_sound_e Ec ns true true Rc) then 8
   else 0.
 
 Definition lv_failing (cs : list lv_case) : list nat :=
